@@ -125,6 +125,17 @@ theorem tabix_header_roundtrip (h : Header) (hw : h.WF) (rest : Bytes) :
     decHeader (encHeader h ++ rest) = .ok (h, rest) :=
   decHeader_rt h hw rest
 
+/-- The names block must be there in full (/repo `fix:` 125ecd7): `l_nm` followed by fewer than `l_nm`
+bytes before the end of the input is an error — `UnexpectedEof`, or the parse error of what is there —
+whatever those bytes are. (Before that commit `le 4 4 ++ [97, 0]` was read as the single name `a`.) The
+writer's block has exactly `l_nm` bytes: `tabix_header_roundtrip`. -/
+theorem names_block_cut_short_rejected (l : Nat) (hl : l < 2^31) (bs : Bytes) (h : bs.length < l) :
+    ∃ e, decNames (Noodles.Codec.le 4 l ++ bs) = .error e :=
+  decNames_short l hl bs h
+
+example : decNames (Noodles.Codec.le 4 4 ++ [97, 0]) = .error .eof := by rfl
+example : decNames (Noodles.Codec.le 4 4 ++ [97, 0, 98, 0, 7]) = .ok ([[97], [98]], [7]) := by rfl
+
 /-- non-vacuity: a BED-style header whose names hold bytes 0xFF, 0x01, TAB, LF and an empty name -/
 example : Header.WF ⟨.generic true, 0, 1, some 2, 35, 7, [[255, 1], [9, 10, 200], []]⟩ := by
   simp [Header.WF, Format.specialized, namesBytes]
@@ -144,6 +155,25 @@ theorem csi_roundtrip (ix : CsiIndex) (h : ix.WF) :
     cases hu : ix.unplaced with
     | none => rw [hu] at hs; cases hs
     | some n => exact readCsi_rt_some ix h n hu rest
+
+/-- CSI `aux` block with padding (/repo `fix:` 8288cb5): a file whose `l_aux` is larger than the tabix
+header in the block — the header followed by `pad`, ANY bytes — is read exactly as the file with the
+exact `l_aux` and no padding that the writer makes: all `l_aux` bytes are consumed, `n_ref` and
+everything after it are read from behind the padding. (Before that commit `n_ref` was read from `pad`.) -/
+theorem csi_aux_padding_skipped (ms d : Nat) (hms : ms < 256) (hd : d < 256) (hdr : Header) (hw : hdr.WF)
+    (pad rest : Bytes) (hl : (encHeader hdr).length + pad.length < 2^31) :
+    readCsi (csiMagic ++ (Noodles.Codec.le 4 ms ++ (Noodles.Codec.le 4 d ++
+      (Noodles.Codec.le 4 ((encHeader hdr).length + pad.length) ++ (encHeader hdr ++ (pad ++ rest)))))) =
+    readCsi (csiMagic ++ (Noodles.Codec.le 4 ms ++ (Noodles.Codec.le 4 d ++ (encAux (some hdr) ++ rest)))) := by
+  unfold readCsi wrapInvalid decCsi
+  rw [decMagic_rt, decMagic_rt]
+  simp only
+  rw [decU8_rt ms hms, decU8_rt ms hms]
+  simp only
+  rw [decU8_rt d hd, decU8_rt d hd]
+  simp only
+  rw [decAux_padded hdr hw pad rest hl,
+    decAux_rt (some hdr) (fun h e => by cases e; exact ⟨hw, by omega⟩) rest]
 
 /-- CSI, answers: what is read back differs from what was written ONLY in the bins' loffsets
 (geometry, header, unplaced count, and per reference the bins with their chunks and the
